@@ -8,7 +8,7 @@ pool) on the real ThreadPool under the controlled scheduler.
 from checks import _pool as P
 
 PROP = "C11"
-LIFE = ["P34-join-zero-timeout", "P31-task-raises-SystemExit", "P32-SystemExit-then-restart", "P29-stop-while-busy-then-restart", "P30-stop-while-busy-restart-chain", "P5-between-stop-and-restart", "P6-stop-races-enqueue", "P10-stop-enq-start", "P13-untimed-join-after-stop-start",
+LIFE = ["P36-stop-with-two-busy-workers", "P37-stop-with-two-busy-then-work", "P34-join-zero-timeout", "P31-task-raises-SystemExit", "P32-SystemExit-then-restart", "P29-stop-while-busy-then-restart", "P30-stop-while-busy-restart-chain", "P5-between-stop-and-restart", "P6-stop-races-enqueue", "P10-stop-enq-start", "P13-untimed-join-after-stop-start",
         "P14-join-while-gated-runs", "P15-double-start-stop", "P20-timed-join-with-gated", "P21-stop-with-join-racing",
         "P7-more-prequeued-than-workers", "P18-chain-after-restart", "P1-prequeued-then-start", "P12-bounded-queue"]
 
@@ -21,6 +21,7 @@ def lifecycle(prog):
 def harnesses(tier):
     if tier == "quick":
         h = P.curated_h(LIFE, [(1, 0), (1, 1), (2, 0), (2, 2)], "sync")
+        h += P.curated_h(["P36-stop-with-two-busy-workers", "P37-stop-with-two-busy-then-work"], [(2, 1), (3, 3)], "sync")
         h += P.generated_h(3, [(1, 1), (2, 0)], "sync", keep=lifecycle)
         h += P.generated_h(4, [(2, 0)], "sync", keep=lambda p: [o[0] for o in p].count("stop") >= 1 and lifecycle(p), Lmin=4)
         h += P.curated_h(["P6-stop-races-enqueue", "P14-join-while-gated-runs", "P15-double-start-stop", "P5-between-stop-and-restart",
